@@ -2,6 +2,8 @@ package main
 
 import (
 	"fmt"
+	"go/token"
+	"go/types"
 	"os"
 	"golang.org/x/tools/go/ssa"
 )
@@ -38,6 +40,12 @@ func resolveUpR(p *Prog, r *Resolver, fn *ssa.Function, v ssa.Value, depth int) 
 			// values (workers as methods of a struct built by the wiring
 			// function): the value the field was initialised with
 			if vals := carrierFieldUp(p, a, depth); len(vals) > 0 {
+				out = append(out, vals...)
+				continue
+			}
+			// a field of a struct passed by value (a bundle of wiring values
+			// returned by a set-up helper and handed on as a parameter)
+			if vals := structParamFieldUp(p, a, depth); len(vals) > 0 {
 				out = append(out, vals...)
 				continue
 			}
@@ -183,6 +191,154 @@ func carrierFieldUp(p *Prog, a *Org, depth int) []*Org {
 			return nil
 		}
 		out = append(out, resolveUpR(p, vr, holders[i], val, depth+1)...)
+	}
+	return out
+}
+
+
+// structParamFieldUp: a is a field path on a by-value struct parameter: the
+// origins of that field in the struct values handed to the function at its
+// static call sites, where such a value is a struct literal built locally or
+// returned (as a literal) by a repository helper, or itself a parameter.
+func structParamFieldUp(p *Prog, a *Org, depth int) []*Org {
+	root, names := a.FieldPath()
+	prm, ok := root.V.(*ssa.Parameter)
+	if root.K != "param" || !ok || len(names) == 0 || depth > 3 {
+		return nil
+	}
+	// field indices along the path
+	var path []int
+	tp := prm.Type()
+	for _, nm := range names {
+		st, isSt := deref(tp).Underlying().(*types.Struct)
+		if !isSt {
+			return nil
+		}
+		found := -1
+		for i := 0; i < st.NumFields(); i++ {
+			if st.Field(i).Name() == nm {
+				found = i
+			}
+		}
+		if found < 0 {
+			return nil
+		}
+		path = append(path, found)
+		tp = st.Field(found).Type()
+	}
+	owner := prm.Parent()
+	idx := -1
+	for i, q := range owner.Params {
+		if q == prm {
+			idx = i
+		}
+	}
+	sites := staticCallers(p, owner)
+	if idx < 0 || len(sites) == 0 {
+		return nil
+	}
+	var out []*Org
+	for _, ci := range sites {
+		if idx >= len(ci.Common().Args) {
+			return nil
+		}
+		vals := structValueField(p, NewResolver(p), ci.Parent(), ci.Common().Args[idx], path, depth+1)
+		if vals == nil {
+			return nil
+		}
+		out = append(out, vals...)
+	}
+	return out
+}
+
+// structValueField: the origins of field path `path` of the struct value v
+// (of function fn, read with resolver r).
+func structValueField(p *Prog, r *Resolver, fn *ssa.Function, v ssa.Value, path []int, depth int) []*Org {
+	if depth > 4 {
+		return nil
+	}
+	v = strip(v)
+	// *literal
+	if ld, ok := v.(*ssa.UnOp); ok && ld.Op == token.MUL {
+		if al, ok := ld.X.(*ssa.Alloc); ok {
+			if val, vr := r.allocPathValue(al, path, 0); val != nil {
+				return resolveUpR(p, vr, fn, val, depth+1)
+			}
+			return nil
+		}
+	}
+	var call *ssa.Call
+	ridx := 0
+	switch x := v.(type) {
+	case *ssa.Call:
+		call = x
+	case *ssa.Extract:
+		if cl, ok := x.Tuple.(*ssa.Call); ok {
+			call, ridx = cl, x.Index
+		}
+	case *ssa.Parameter:
+		owner := x.Parent()
+		idx := -1
+		for i, q := range owner.Params {
+			if q == x {
+				idx = i
+			}
+		}
+		var out []*Org
+		for _, ci := range staticCallers(p, owner) {
+			if idx < 0 || idx >= len(ci.Common().Args) {
+				return nil
+			}
+			vals := structValueField(p, NewResolver(p), ci.Parent(), ci.Common().Args[idx], path, depth+1)
+			if vals == nil {
+				return nil
+			}
+			out = append(out, vals...)
+		}
+		return out
+	}
+	if call == nil {
+		// a captured struct variable: the cell's single store
+		if o := r.Of(v); o.K == "unop" && o.Name == "*" {
+			return nil
+		}
+		return nil
+	}
+	sc := staticCallee(call.Common())
+	if sc == nil || !InRepo(sc) || sc.Blocks == nil {
+		return nil
+	}
+	nr := r.Bind(sc, call)
+	var out []*Org
+	okAll := true
+	allInstrs(sc, func(in ssa.Instruction) {
+		ret, ok := in.(*ssa.Return)
+		if !ok || ridx >= len(ret.Results) || in.Block() == sc.Recover {
+			return
+		}
+		res := strip(ret.Results[ridx])
+		// the zero struct returned together with an error
+		if ld, ok := res.(*ssa.UnOp); ok && ld.Op == token.MUL {
+			if al, ok := ld.X.(*ssa.Alloc); ok {
+				if val, vr := nr.allocPathValue(al, path, 0); val != nil {
+					out = append(out, resolveUpR(p, vr, sc, val, depth+1)...)
+					return
+				}
+				// a literal with no store to that field: its zero value
+				if len(nr.cellStores(al)) == 0 {
+					out = append(out, &Org{K: "zero"})
+					return
+				}
+			}
+		}
+		if k, ok := res.(*ssa.Const); ok && k.Value == nil {
+			out = append(out, &Org{K: "zero"})
+			return
+		}
+		okAll = false
+	})
+	if !okAll {
+		return nil
 	}
 	return out
 }
